@@ -3,8 +3,13 @@ package props
 import (
 	"bytes"
 	"encoding/hex"
+	"encoding/json"
 	"fmt"
+	"github.com/libp2p/go-libp2p/core/crypto"
 	"math/rand"
+	"sync"
+	"sync/atomic"
+	"time"
 
 	"github.com/ipni/go-libipni/ingest/model"
 	"github.com/libp2p/go-libp2p/core/peer"
@@ -64,6 +69,145 @@ func (f *foreignTypeRegister) Codec() []byte { return []byte("not-a-peer-record"
 func runC18(c *vf.Ctx) {
 	c18Matrix(c)
 	c18Alter(c)
+	c18Crafted(c)
+	c18Concurrent(c)
+}
+
+// rawIngest seals an arbitrary payload as an ingest request (right domain, right payload type).
+type rawIngest struct{ payload []byte }
+
+func (r *rawIngest) Domain() string                 { return model.IngestRequestEnvelopeDomain }
+func (r *rawIngest) Codec() []byte                  { return model.IngestRequestEnvelopePayloadType }
+func (r *rawIngest) MarshalRecord() ([]byte, error) { return r.payload, nil }
+func (r *rawIngest) UnmarshalRecord(b []byte) error { r.payload = b; return nil }
+
+// c18Crafted: payloads written by hand and sealed by an attacker's key, in which the provider is named more than once
+// (JSON objects with a repeated key, or keys that differ in case only): whatever a reader makes of them, a request it
+// returns names its signer.
+func c18Crafted(c *vf.Ctx) {
+	const sub = "crafted-payloads"
+	if !c.Active(sub) {
+		return
+	}
+	ids := allIdents()
+	n := c.N(400, 8000)
+	for i := 0; i < n; i++ {
+		if !c.Mine(sub, i) {
+			continue
+		}
+		r := c.Rand(sub, i)
+		attacker := ids[r.Intn(len(ids))]
+		victim := ids[r.Intn(len(ids))]
+		if victim.ID == attacker.ID {
+			continue
+		}
+		q := c18Gen(r)
+		mhJ, _ := json.Marshal(q.mh)
+		ctxJ, _ := json.Marshal(q.ctx)
+		mdJ, _ := json.Marshal(q.md)
+		adJ, _ := json.Marshal(q.addrs)
+		a, v := fmt.Sprintf("%q", attacker.ID.String()), fmt.Sprintf("%q", victim.ID.String())
+		rest := fmt.Sprintf(`"Multihash":%s,"ContextID":%s,"Metadata":%s,"Addrs":%s,"Seq":7`, mhJ, ctxJ, mdJ, adJ)
+		forms := []string{
+			`{"ProviderID":` + a + `,` + rest + `,"ProviderID":` + v + `}`,
+			`{"ProviderID":` + v + `,` + rest + `,"ProviderID":` + a + `}`,
+			`{"ProviderID":` + a + `,` + rest + `,"providerid":` + v + `}`,
+			`{"providerid":` + v + `,` + rest + `,"ProviderID":` + a + `}`,
+			`{"PROVIDERID":` + a + `,"ProviderID":` + v + `,` + rest + `}`,
+			`{` + rest + `,"ProviderID":` + a + `,"ProviderId":` + v + `}`,
+			`{"ProviderID":` + v + `,` + rest + `}`,
+		}
+		for fi, payload := range forms {
+			c.Cur(sub, i, fmt.Sprintf("form %d signed by %s", fi, attacker.Type))
+			env, err := record.Seal(&rawIngest{payload: []byte(payload)}, attacker.Priv)
+			if err != nil {
+				continue
+			}
+			data, _ := env.Marshal()
+			wit := func() any {
+				return map[string]any{"payload": payload, "sealed_by": attacker.ID.String(), "names_also": victim.ID.String()}
+			}
+			c.Guard(sub, i, wit, func() {
+				got, err := model.ReadIngestRequest(data)
+				if err == nil && got != nil && got.ProviderID != attacker.ID {
+					c.Fail(sub, i, "ingest-foreign-signer-accepted:crafted-payload", fmt.Sprintf("form %d: the returned request names %s, it was sealed by %s", fi, got.ProviderID, attacker.ID), wit())
+				}
+				if err == nil {
+					c.Inc("crafted_payloads_accepted_naming_their_signer")
+				} else {
+					c.Inc("crafted_payloads_rejected")
+				}
+			})
+			c.Eval(1)
+		}
+		c.Distinct(sub, attacker.Type, victim.Type)
+	}
+}
+
+// slowSigner yields before it signs: other goroutines get to run between the moment a request has been serialized and
+// the moment its envelope is finished
+type slowSigner struct{ crypto.PrivKey }
+
+func (k slowSigner) Sign(b []byte) ([]byte, error) {
+	runtimeGosched()
+	time.Sleep(20 * time.Microsecond)
+	return k.PrivKey.Sign(b)
+}
+
+// c18Concurrent: many goroutines build requests at the same time; each must read back as built
+func c18Concurrent(c *vf.Ctx) {
+	const sub = "concurrent-construction"
+	if !c.Active(sub) {
+		return
+	}
+	ids := allIdents()
+	n := c.N(40, 800)
+	for i := 0; i < n; i++ {
+		if !c.Mine(sub, i) {
+			continue
+		}
+		r := c.Rand(sub, i)
+		ng := 4 + r.Intn(12)
+		per := 20 + r.Intn(30)
+		c.Cur(sub, i, fmt.Sprintf("%d goroutines x %d requests", ng, per))
+		var wg sync.WaitGroup
+		var bad atomic.Int64
+		var first atomic.Pointer[string]
+		for g := 0; g < ng; g++ {
+			wg.Add(1)
+			id := ids[r.Intn(len(ids))]
+			rr := rand.New(rand.NewSource(r.Int63()))
+			go func(id Ident, rr *rand.Rand) {
+				defer wg.Done()
+				for k := 0; k < per; k++ {
+					q := c18Gen(rr)
+					data, err := model.MakeIngestRequest(id.ID, slowSigner{id.Priv}, q.mh, q.ctx, q.md, q.addrs)
+					if err != nil {
+						continue
+					}
+					got, err := model.ReadIngestRequest(data)
+					why := ""
+					switch {
+					case err != nil:
+						why = "own request rejected: " + err.Error()
+					case got.ProviderID != id.ID || !bytes.Equal(got.ContextID, q.ctx) || !bytes.Equal(got.Metadata, q.md) || !bytes.Equal(got.Multihash, q.mh) || fmt.Sprint(got.Addrs) != fmt.Sprint(q.addrs):
+						why = fmt.Sprintf("fields differ: built ctx=%x, read back ctx=%x provider=%s", q.ctx, got.ContextID, got.ProviderID)
+					}
+					if why != "" {
+						bad.Add(1)
+						first.CompareAndSwap(nil, &why)
+					}
+				}
+			}(id, rr)
+		}
+		wg.Wait()
+		if bad.Load() > 0 {
+			c.Fail(sub, i, "own-ingest-request-not-read-back-as-built:concurrent-construction", fmt.Sprintf("%d of %d requests: %s", bad.Load(), ng*per, *first.Load()), nil)
+		}
+		c.Eval(1)
+		c.Add("requests_built_concurrently", int64(ng*per))
+		c.Distinct(sub, fmt.Sprint(ng))
+	}
 }
 
 // every (signing key, named provider) pair; constructor round trip on the diagonal
@@ -234,7 +378,9 @@ func c18Alter(c *vf.Ctx) {
 			}
 		}
 		// cross-feeding: ingest bytes to the register reader and vice versa
-		wx := func() any { return map[string]any{"keytype": id.Type, "ingest_hex": hex.EncodeToString(ing), "register_hex": hex.EncodeToString(reg)} }
+		wx := func() any {
+			return map[string]any{"keytype": id.Type, "ingest_hex": hex.EncodeToString(ing), "register_hex": hex.EncodeToString(reg)}
+		}
 		c.Guard(sub, i, wx, func() {
 			if _, err := model.ReadRegisterRequest(ing); err == nil {
 				c.Fail(sub, i, "ingest-accepted-as-register", "", wx())
